@@ -255,7 +255,8 @@ def translate_class(src_root, relfile, cls, specs, check_slots):
         params = ("(ctor : Int → Option Int → Py.R WdPy.Wd) " if tr.uses_ctor else "") + ("" if sp.init else "(self : WdPy.Wd) ") + " ".join("(%s : %s)" % (p, LEAN_TY[t]) for p, t in sp.params)
         parts.append("/-- translated from `%s:%s.%s` -/\ndef %s %s: Py.R (%s) :=\n%s\n" % (
             relfile, cls, sp.method, sp.leanname, params + (" " if params.strip() else ""), LEAN_TY[sp.ret], indent(body)))
-        fps["%s:%s.%s" % (relfile, cls, sp.method)] = hashlib.sha256(ast.dump(fn).encode()).hexdigest()[:16]
+        # key = <qualified name>/<lean name> (the form tools/coverage_map.py matches against the source's functions)
+        fps["%s.%s/%s" % (cls, sp.method, sp.leanname)] = hashlib.sha256(ast.dump(fn).encode()).hexdigest()[:16]
     return parts, fps
 
 
